@@ -24,6 +24,7 @@ extern crate iceoryx2_bb_loggers;
 mod cside;
 mod ev;
 mod ps;
+mod rr;
 mod rside;
 
 pub struct Rng(pub u64);
@@ -70,7 +71,7 @@ pub fn rust_err<E: core::fmt::Debug>(e: E) -> String {
 fn main() {
     let args: Vec<String> = std::env::args().collect();
     if args.len() < 7 {
-        eprintln!("usage: c18 pubsub|event <seed> <shard> <nshards> <ncases> <maxops>");
+        eprintln!("usage: c18 pubsub|event|reqres <seed> <shard> <nshards> <ncases> <maxops>");
         std::process::exit(2);
     }
     iceoryx2_log::set_log_level(iceoryx2_log::LogLevel::Fatal);
@@ -86,11 +87,12 @@ fn main() {
         if case % nshards != shard {
             continue;
         }
-        let mut rng = Rng(seed ^ ((case as u64 + 1).wrapping_mul(0xA24BAED4963EE407)) ^ if kind == "event" { 0x5555 } else { 0 });
+        let mut rng = Rng(seed ^ ((case as u64 + 1).wrapping_mul(0xA24BAED4963EE407)) ^ if kind == "event" { 0x5555 } else if kind == "reqres" { 0xAAAA } else { 0 });
         cases += 1;
         match kind {
             "pubsub" => total_ops += ps::run_case(case, &mut rng, maxops),
             "event" => total_ops += ev::run_case(case, &mut rng, maxops),
+            "reqres" => total_ops += rr::run_case(case, &mut rng, maxops),
             _ => {
                 eprintln!("unknown kind");
                 std::process::exit(2);
